@@ -446,6 +446,10 @@ def main():
     jobs = []
     for stack in GLUE_STACKS:
         jobs.append((job_collapse_glue, {'stack': stack}))
+    # forward (integration-phase) call sites of the interface kernel: whole-function run of cf_radial_solver with stub kernels (C06 machinery)
+    import c06
+    for stack, nd in (([(0, False, False), (1, True, False), (0, False, False)], True), ([(1, False, False), (0, True, False)], False), ([(0, False, False), (1, False, False), (1, True, False), (0, True, False)], False)):
+        jobs.append((c06.job_whole, {'stack': stack, 'nondim': nd}))
     incs = [False, True] if TIER == 'thorough' else [False]
     for (t, s) in [(0, False), (1, False), (1, True)]:
         for inc in incs:
